@@ -314,3 +314,32 @@ func TestVerifC07(t *testing.T) {
 		})
 	}
 }
+
+// TestVerifC05BP is the back-pressure part of C05 (file length = header + whole accepted records, body = exactly
+// the accepted records): the same producer / writeLoop scenarios as C07 at a smaller bound, so that a writer
+// that lets part of a record into the file when its queue is nearly full is reported under C05, too.
+func TestVerifC05BP(t *testing.T) {
+	r := vexp.NewRunner("C05")
+	r.CrashTrace = true
+	defer r.Finish()
+	pb := 1
+	if r.Thorough() {
+		pb = 2
+	}
+	r.SetBound(fmt.Sprintf("back-pressure part: all interleavings of a producer (create, header, 2-3 records, optional flush, close) and the real writeLoop goroutine with at most %d preemptions; writers LJH2.2, LJH3, OFF; queue depths around one record's number of parts", pb))
+	dir := filepath.Join(os.Getenv("TMPDIR"), "c05bp")
+	os.MkdirAll(dir, 0755)
+	for _, kind := range []string{"ljh22", "ljh3", "off"} {
+		depths := map[string][]int{"ljh22": {2, 3, 4}, "ljh3": {3, 5, 6}, "off": {7, 8, 9}}[kind]
+		for _, d := range depths {
+			for _, nrec := range []int{2, 3} {
+				for _, fa := range []int{-1, 1} {
+					sc := v07Scenario{kind, d, nrec, fa}
+					r.DFSSharded(fmt.Sprintf("bp/%s/depth%d/rec%d/flush%d", sc.kind, sc.depth, sc.nrec, sc.flushAt), pb, 3, func(x *vexp.X) vexp.Result {
+						return sc.run(x, dir)
+					})
+				}
+			}
+		}
+	}
+}
